@@ -4,7 +4,13 @@
 //! Bitmap backend implementation based on atomic integers.
 
 use std::num::NonZeroUsize;
+#[cfg(not(feature = "verif-hooks"))]
 use std::sync::atomic::{AtomicU64, Ordering};
+
+#[cfg(feature = "verif-hooks")]
+use crate::verif_hooks::AtomicU64;
+#[cfg(feature = "verif-hooks")]
+use std::sync::atomic::Ordering;
 
 use crate::bitmap::{Bitmap, NewBitmap, RefSlice, WithBitmapSlice};
 
